@@ -51,6 +51,7 @@ func main() {
 			os.Exit(2)
 		}
 		selfCheck()
+		warmAllOperators()
 		c := hx.NewChecker(prop, tier, def.level)
 		def.fn(c)
 		os.Exit(c.Finish())
